@@ -1,5 +1,5 @@
 CONSTANTS
-  MaxW = 2
+  MaxW = 3
   MaxJ = 3
   MaxSplit = 3
   MaxPieces = 3
